@@ -231,6 +231,7 @@ type access struct {
 	write bool
 	pos   token.Pos
 	recv  *ast.Ident // access through the method receiver (resolved to a package-level object at run time)
+	field string     // first struct field selected from the variable / receiver ("" = the value as a whole)
 }
 
 // accessesIn collects package-level variable accesses in the "header" of a statement: everything
@@ -243,10 +244,39 @@ func (in *instr) accessesIn(n ast.Node, writes map[*ast.Ident]bool) []access {
 	// identifiers whose ADDRESS is taken, not their value: &v, and v.m() with a pointer-receiver method on an
 	// addressable (non-pointer) v. Nothing is read at that point; the object is accessed where it is touched.
 	addrOnly := map[*ast.Ident]bool{}
+	fieldOf := map[*ast.Ident]string{} // v.f..., (*v).f... : the struct field the access goes to
 	ast.Inspect(n, func(x ast.Node) bool {
 		switch t := x.(type) {
 		case *ast.BlockStmt, *ast.FuncLit:
 			return false
+		case *ast.SelectorExpr:
+			if sel := in.info.Selections[t]; sel != nil {
+				base := t.X
+				for {
+					if p, ok := base.(*ast.ParenExpr); ok {
+						base = p.X
+						continue
+					}
+					if st, ok := base.(*ast.StarExpr); ok {
+						base = st.X
+						continue
+					}
+					break
+				}
+				if id, ok := base.(*ast.Ident); ok {
+					switch sel.Kind() {
+					case types.FieldVal:
+						fieldOf[id] = t.Sel.Name
+					case types.MethodVal:
+						// calling a method of this package on the object is not a data access here: the method reports its own
+						if fn, ok := sel.Obj().(*types.Func); ok && fn.Pkg() != nil && fn.Pkg().Path() == in.pkgPath {
+							if _, isRecv := in.info.Uses[id].(*types.Var); isRecv && in.recvObj != nil && in.info.Uses[id] == in.recvObj {
+								addrOnly[id] = true
+							}
+						}
+					}
+				}
+			}
 		case *ast.UnaryExpr:
 			if t.Op == token.AND {
 				if id := rootIdent(t.X); id != nil {
@@ -286,9 +316,9 @@ func (in *instr) accessesIn(n ast.Node, writes map[*ast.Ident]bool) []access {
 				return true
 			}
 			if id, ok := in.pkgVarOf(t); ok {
-				out = append(out, access{id, writes[t], t.Pos(), nil})
+				out = append(out, access{id, writes[t], t.Pos(), nil, fieldOf[t]})
 			} else if in.recvObj != nil && in.info.Uses[t] == in.recvObj {
-				out = append(out, access{-1, writes[t], t.Pos(), t})
+				out = append(out, access{-1, writes[t], t.Pos(), t, fieldOf[t]})
 			}
 		}
 		return true
@@ -373,13 +403,17 @@ func isShimmed(path string) bool {
 
 func (in *instr) accStmts(acc []access) []ast.Stmt {
 	var out []ast.Stmt
-	seen := map[[2]int]bool{}
+	type akey struct {
+		id, wi int
+		field  string
+	}
+	seen := map[akey]bool{}
 	for _, a := range acc {
 		wi := 0
 		if a.write {
 			wi = 1
 		}
-		k := [2]int{a.id, wi}
+		k := akey{a.id, wi, a.field}
 		if seen[k] {
 			continue
 		}
@@ -397,7 +431,7 @@ func (in *instr) accStmts(acc []access) []ast.Stmt {
 			}
 			in.sites = append(in.sites, site{in.file, p.Line, a.recv.Name, rk})
 			siteID := len(in.sites) + 1000*fileOrdinal(in.file)
-			args := []ast.Expr{lit(siteID), ast.NewIdent(a.recv.Name), boolLit(a.write)}
+			args := []ast.Expr{lit(siteID), ast.NewIdent(a.recv.Name), boolLit(a.write), &ast.BasicLit{Kind: token.STRING, Value: strconv.Quote(a.field)}}
 			for _, c := range in.recvCands {
 				args = append(args, lit(c))
 			}
@@ -414,7 +448,11 @@ func (in *instr) accStmts(acc []access) []ast.Stmt {
 		p := in.fset.Position(a.pos)
 		in.sites = append(in.sites, site{in.file, p.Line, in.pkgVars[a.id].Name(), kind})
 		siteID := len(in.sites) + 1000*fileOrdinal(in.file)
-		out = append(out, &ast.ExprStmt{X: vrtCall("Acc", lit(siteID), lit(a.id), boolLit(a.write))})
+		if a.field != "" {
+			out = append(out, &ast.ExprStmt{X: vrtCall("AccF", lit(siteID), lit(a.id), boolLit(a.write), &ast.BasicLit{Kind: token.STRING, Value: strconv.Quote(a.field)})})
+		} else {
+			out = append(out, &ast.ExprStmt{X: vrtCall("Acc", lit(siteID), lit(a.id), boolLit(a.write))})
+		}
 	}
 	return out
 }
